@@ -6,6 +6,19 @@ Property theorems only.  The model is Model/TemplateParser.lean (statement level
 Model/ExprParser.lean (expression level), tied to tera/src/parsing/parser.rs on every run by
 harness/src/bin/c06p.rs (exact equality of parent / nodes / component definitions on real token
 streams, both reject the same inputs).  The lexer side of C06 is Props/C06.lean.
+
+  T1  parser_total_no_panic, expression_parser_total
+  T2  counted_depth_bounded, expression_counted_depth_bounded, elif_chain_not_counted
+  T3  ast_height_bound, ast_height_unbounded (F1 as a theorem: two witness families)
+  T4  break_continue_legal, break_rule, continue_rule
+  T5  blocks_recorded_once, extends_rule, extends_not_first_accepted (a finding: the documented
+      "first tag / not nested" rule does not hold inside a `for … else` body)
+
+Not proved here: that the token list of `Tera.Lexer.tokenize` (Props/C06.lean) satisfies `shaped`
+— the per-step facts are `C06.template_state_tokens` / `filter_removes_raw_and_comment` /
+`node_level_tokens`; the whole-stream shape is checked by the harness on every real token stream
+(driver op `shape`).  The Rust frame counts per counted level quoted under T2 are read off the
+code, not modelled.
 -/
 import TeraModel.Lemmas.TemplateParserTotal
 import TeraModel.Lemmas.TemplateParserHeight
